@@ -589,6 +589,9 @@ func c10ContainOnce(kind string, a []string) (result string, suspect bool) {
 				switch {
 				case closed:
 					status[k] = "closed"
+					if !closing {
+						suspect = true // a reset not explained by the bytes sent (or a refused key): believed only when it persists
+					}
 				case ok:
 					status[k] = "open:" + c10Replies808(d)
 				default:
@@ -609,6 +612,7 @@ func c10ContainOnce(kind string, a []string) (result string, suspect bool) {
 				switch {
 				case closed:
 					status[k] = "closed:" + Hx(d)
+					suspect = true // the attachment server never closes a connection
 				case ok:
 					status[k] = "open:" + Hx(d)
 				default:
